@@ -56,6 +56,58 @@ PROPS = {
         "thorough": {"cases": {"plain": 700000, "asan": 60000}, "params": {"exhaustive": 99072}, "params_asan": {"exhaustive": 10000}, "min_nontrivial": 60000},
         "assumptions": COMMON_ASSUME,
     },
+    "C01": {
+        "monitor": "mon_incl",
+        "rule": "pairs of explicit tree automata: seed-rotated slice of all 548^2 pairs with <=2 states/<=2 rules over {a/0,b/0,f/1,g/2}; random, productive, related-by-construction (A vs A∪X), near-boundary mutants, renamed twins, structured families (children reached by different trees, deep unary chains, many tuples per (state,symbol), small A / large B up to 12 states). Each pair x 8 selections (no-simulation ones with raw and pre-sanitised operands; simulation ones through Sanitize→UnionDisjointStates→ComputeSimulation→CheckInclusion) + default parameters + unimplemented selections must throw; a quarter of the cases are built through the Timbuk loader. Oracle: joint subset construction; online memo audit hook. non-trivial = both languages non-empty in the reference model; distinct = hash of (alphabet, A, B)",
+        "quick": {"cases": {"plain": 24000, "asan": 3000}, "params": {"exhaustive": 6000}, "params_asan": {"exhaustive": 600}, "min_nontrivial": 5000,
+                  "min_counters": {"nontrivial:included": 2000, "nontrivial:not-included": 2000, "runs:expl/down-rec-opt+sim": 10000}},
+        "thorough": {"cases": {"plain": 700000, "asan": 40000}, "params": {"exhaustive": 300304}, "params_asan": {"exhaustive": 10000}, "min_nontrivial": 100000},
+        "timeout": 20,
+        "assumptions": COMMON_ASSUME + ["downward selections without simulation are only run when both operands have <= 6 states (heavy-tailed running time); a per-case CPU-time watchdog makes a case inconclusive, never violated"],
+    },
+    "C07": {
+        "monitor": "mon_incl",
+        "rule": "same pair generators as C01 (<=5 states, small A / large B up to 12), loaded from Timbuk text with one weak translator and a shared counter per pair; BDD top-down: down-rec and down-rec-opt x {raw, pre-sanitised, simulation supplied as the library's own bottom-up path does, identity}; BDD bottom-up: up x {raw, pre-sanitised, identity 'simulation'}, down-rec+sim; unimplemented selections must throw NotImplementedException. Oracle: joint subset construction + explicit-encoding verdict; online memo audit hook. non-trivial = both languages non-empty; distinct = hash of (alphabet, A, B)",
+        "quick": {"cases": {"plain": 16000, "asan": 1600}, "params": {"exhaustive": 4000}, "params_asan": {"exhaustive": 300}, "min_nontrivial": 3000,
+                  "min_counters": {"nontrivial:included": 1500, "nontrivial:not-included": 1500, "runs:bdd-bu/up": 10000}},
+        "thorough": {"cases": {"plain": 400000, "asan": 20000}, "params": {"exhaustive": 150000}, "params_asan": {"exhaustive": 5000}, "min_nontrivial": 50000},
+        "timeout": 20,
+        "assumptions": COMMON_ASSUME + ["at most 5 distinct symbol names per process (16-bit symbol codes, process-wide alphabet only grows)"],
+    },
+    "C04": {
+        "monitor": "mon_sim",
+        "rule": "all 2788 automata with <=2 states/<=3 rules (thorough: all 99072 with <=3 states), random/productive/duplicated automata (<=7 states, rank <=3); downward simulation on the densely numbered automaton, upward simulation on the automaton trimmed by the reference model; each again under 3 (thorough 6) random permutations of the state numbers with shuffled rule insertion order and shuffled symbol registration. Oracle: naive greatest fixpoints of the two definitions in the property; reflexive, transitive; permuted relation = image. non-trivial = n >= 2 and the reference relation is neither identity nor full; distinct = hash of (direction, alphabet, automaton)",
+        "quick": {"cases": {"plain": 20000, "asan": 3000}, "params_asan": {"exhaustive": 500}, "min_nontrivial": 3000, "min_counters": {"numberings-tried": 20000, "up-runs": 8000}},
+        "thorough": {"cases": {"plain": 400000, "asan": 30000}, "params": {"exhaustive": 99072, "numberings": 6}, "params_asan": {"exhaustive": 5000}, "min_nontrivial": 40000},
+        "timeout": 5, "hang_is_violation": True,
+        "assumptions": COMMON_ASSUME + ["states numbered densely 0..n-1 and n passed as SimParam::NumStates (precondition in the property)", "upward simulation only on automata without useless states (trimmed by the reference model, not by the library)"],
+    },
+    "C16": {
+        "monitor": "mon_sim",
+        "rule": "random LTSs (1-9 states, 1-4 labels incl. unused label numbers, parallel edges, isolated/sink states, rings) through computeSimulation(), computeSimulation(outputSize) and computeSimulation(partition, block preorder, outputSize) with random non-empty blocks and random reflexive-transitive block relations, random outputSize <= states. Oracle: naive greatest fixpoint started from 'blocks related'; size of the result = outputSize. non-trivial = >=2 states and the result differs from the initial relation; distinct = hash of the LTS (+ partition, preorder)",
+        "quick": {"cases": {"plain": 60000, "asan": 8000}, "min_nontrivial": 20000, "min_counters": {"partition-runs": 30000}},
+        "thorough": {"cases": {"plain": 1500000, "asan": 100000}, "params": {"N": 12}, "min_nontrivial": 400000},
+        "timeout": 5, "hang_is_violation": True,
+        "assumptions": COMMON_ASSUME + ["every block of the partition is non-empty and the block relation is reflexive and transitive (precondition in the property)"],
+    },
+    "C09": {
+        "monitor": "mon_fa",
+        "rule": "pairs of NFAs: seed-rotated slice of all 1488^2 pairs with <=2 states/<=3 edges over 2 symbols and any start/final sets; random, live (non-empty language), related-by-construction and near-boundary pairs, larger searches (up to 10 states / 30 edges, 1-3 symbols); several start states, start states that are final, dead/unreachable states. Each pair x {antichains, congruence depth-first, congruence breadth-first} x {raw operands numbered from 0 as loaded, operands pre-sanitised by the caller} + default parameters. Oracle: joint subset construction on words; online memo audit hook. non-trivial = both languages non-empty; distinct = hash of (symbols, A, B)",
+        "quick": {"cases": {"plain": 40000, "asan": 5000}, "params": {"exhaustive": 10000}, "params_asan": {"exhaustive": 1000}, "min_nontrivial": 8000,
+                  "min_counters": {"nontrivial:included": 3000, "nontrivial:not-included": 3000}},
+        "thorough": {"cases": {"plain": 1200000, "asan": 80000}, "params": {"exhaustive": 400000, "S": 9, "T": 26}, "params_asan": {"exhaustive": 20000}, "min_nontrivial": 200000},
+        "timeout": 5, "hang_is_violation": True,
+        "assumptions": COMMON_ASSUME + ["operands have <= 10 states, so a 20 s CPU-time budget per case that is exceeded twice (second time doubled) is non-termination, not slowness"],
+    },
+    "C10": {
+        "monitor": "mon_fa",
+        "rule": "same NFA pair generators as C09; Union, UnionDisjointStates (operands loaded through one weak translator with a shared counter), Intersection (with/without product map), RemoveUnreachableStates, RemoveUselessStates, GetCandidateTree, Reverse; results observed through DumpToString. Oracle: joint subset construction on words (mirror language for Reverse); operands' dumps unchanged. non-trivial = first operand accepts the empty word, or has >=2 start states, or a non-empty language; distinct = hash of (symbols, A, B)",
+        "quick": {"cases": {"plain": 40000, "asan": 5000}, "params": {"exhaustive": 10000}, "params_asan": {"exhaustive": 1000}, "min_nontrivial": 8000,
+                  "min_counters": {"shape:accepts-empty-word": 3000, "shape:several-start-states": 3000, "nonempty-intersection": 3000}},
+        "thorough": {"cases": {"plain": 1200000, "asan": 80000}, "params": {"exhaustive": 400000}, "params_asan": {"exhaustive": 20000}, "min_nontrivial": 200000},
+        "timeout": 5, "hang_is_violation": True,
+        "assumptions": COMMON_ASSUME,
+    },
 }
 
 MEMCHECK_FAMILIES = []
